@@ -152,8 +152,15 @@ func SelfTest(seed uint64, nSpecs int) int {
 		env := append(os.Environ(), "FERRET_LIBS_PATH="+b.Libs, "FERRET_AS="+b.Stub, "FERRET_LD="+b.Stub, "AS=", "LD=")
 		pr := core.RunProc(60*time.Second, filepath.Join(pd, "u0"), env, nil, b.Plain, args...)
 		// the simulated run's output travels through JSON (which replaces every invalid UTF-8 byte by U+FFFD) before colour codes are stripped: do the same here, in the same order
-		po := Observable{Exit: pr.ExitCode, Stdout: Normalise(jsonValid(string(pr.Stdout)), filepath.Join(pd, "u0")),
-			Stderr: Normalise(jsonValid(string(pr.Stderr)), filepath.Join(pd, "u0")), Files: map[string]string{}}
+		// the simulated harness keeps at most 1 MiB of each stream (readCap in zsim_harness.go)
+		capped := func(b []byte) string {
+			if len(b) > 1<<20 {
+				b = b[:1<<20]
+			}
+			return string(b)
+		}
+		po := Observable{Exit: pr.ExitCode, Stdout: Normalise(jsonValid(capped(pr.Stdout)), filepath.Join(pd, "u0")),
+			Stderr: Normalise(jsonValid(capped(pr.Stderr)), filepath.Join(pd, "u0")), Files: map[string]string{}}
 		filepath.Walk(outDir, func(p string, info os.FileInfo, err error) error {
 			if err != nil || info.IsDir() {
 				return nil
